@@ -237,7 +237,7 @@ def worker_main(pid, args):
             if kf is not None:
                 out["known"][kf["id"]] = out["known"].get(kf["id"], 0) + 1
             elif len(out["violations"]) < 20:
-                out["violations"].append({"index": idx, "scenario": sc, "violation": v,
+                out["violations"].append({"index": idx, "scenario": sc, "violation": v, "optimize": int(sys.flags.optimize),
                                           "history": {"seed": seed, "tier": tier, "start": start, "step": step, "upto": idx}})
 
     # enumerated strata are swept by worker 0 .. n-1 round-robin
@@ -337,7 +337,7 @@ def shrink(prop, scenario, oracle, budget_s=60.0):
 # ------------------------------------------------------------------------------------
 # replay files
 # ------------------------------------------------------------------------------------
-def write_replay(prop, scenario, violation, seed, index, shrink_tests=None, original=None, history=None):
+def write_replay(prop, scenario, violation, seed, index, shrink_tests=None, original=None, history=None, optimize=0):
     d = os.path.join(REPLAY_DIR, prop.id)
     os.makedirs(d, exist_ok=True)
     slug = "".join(ch if ch.isalnum() else "_" for ch in violation["oracle"].split(".", 1)[-1])
@@ -348,6 +348,9 @@ def write_replay(prop, scenario, violation, seed, index, shrink_tests=None, orig
            "expect": {"class": violation["oracle"], "message": violation["msg"][:500],
                       "step": violation.get("step")},
            "digest": r["digest"], "shrink_tests": shrink_tests}
+    if optimize:
+        doc["interpreter"] = {"optimize": int(optimize),
+                              "note": "found by a worker running under python -O; --replay re-executes itself with PYTHONOPTIMIZE=1"}
     if history:
         doc["history"] = history
         doc["history_note"] = ("the violation depends on state left in the process by the runs the worker executed before this "
@@ -395,6 +398,13 @@ def replay_in_fresh_interpreter(path, hashseed="0"):
     env = dict(os.environ)
     env["PYTHONHASHSEED"] = str(hashseed)
     env["LASIM_NO_REEXEC"] = "1"
+    env.pop("PYTHONOPTIMIZE", None)
+    try:
+        with open(path) as fh:
+            if (json.load(fh).get("interpreter") or {}).get("optimize"):
+                env["PYTHONOPTIMIZE"] = "1"
+    except Exception:
+        pass
     p = subprocess.run([sys.executable, CHECK, "--replay", path], env=env, stdout=subprocess.PIPE,
                        stderr=subprocess.STDOUT, timeout=600)
     return p.returncode == 1, p.stdout.decode("utf-8", "replace")
@@ -415,6 +425,10 @@ def spawn_workers(pid, seed, tier, runs, wall, nworkers, digests=False, hashseed
         hs = H(seed if hashseed_base is None else hashseed_base, "hashseed", w) % 4294967295
         env["PYTHONHASHSEED"] = str(hs)
         env["LASIM_NO_REEXEC"] = "1"
+        # interpreter configuration is one more knob of the swarm: every fourth worker runs with python -O (asserts stripped)
+        env.pop("PYTHONOPTIMIZE", None)
+        if w % 4 == 3:
+            env["PYTHONOPTIMIZE"] = "1"
         p = subprocess.Popen([sys.executable, CHECK, pid, "--worker", json.dumps(args)], env=env,
                              stdout=subprocess.PIPE, stderr=subprocess.STDOUT)
         procs.append((p, out, w))
@@ -529,6 +543,14 @@ def check_main(pid, tier, seed, nworkers=None):
         kf = find_known(prop, small, viol[0], findings)
         path = write_replay(prop, small, viol[0], seed, v["index"], shrink_tests=ntests)
         ok, outtxt = replay_in_fresh_interpreter(path)
+        if not ok and v.get("optimize"):
+            # found under python -O and not reproducible without it: the replay file carries the interpreter configuration
+            path = write_replay(prop, v["scenario"], v["violation"], seed, v["index"], shrink_tests=ntests, optimize=v["optimize"])
+            ok, outtxt = replay_in_fresh_interpreter(path)
+            shrink_stats.append({"oracle": oracle, "under_python_O": True, "replay": path, "reproduced": ok})
+            if ok:
+                small, viol = v["scenario"], [v["violation"]]
+                kf = None
         shrink_stats.append({"oracle": oracle, "tests": ntests, "replay": path, "reproduced": ok})
         if not ok and v.get("history"):
             # not reproducible from the scenario alone: try again with the worker's history as prefix (state leaked between runs)
@@ -576,6 +598,7 @@ def check_main(pid, tier, seed, nworkers=None):
         "shrink": shrink_stats,
         "components": prop.real_vs_stub,
         "workers": nworkers,
+        "workers_under_python_O": len([w for w in range(nworkers) if w % 4 == 3]),
     }
     cov.update(prop.extra_evidence())
     ev = {"property_id": pid, "tier": tier, "seed": seed, "level": prop.level, "coverage": cov,
